@@ -55,8 +55,13 @@ def gen_source(rng, gen):
         return ('object', [('fix', 'b', False, 'd', None, ('sindex', ('str', 'fresh_' + rng.choice('abcdef'))))])
     if k < 0.85:
         return ('object', [('fix', 'fresh_' + rng.choice('abcdef'), False, 'd', None, ('field', l, 'n'))])
-    if k < 0.92:
+    if k < 0.89:
         return ('error', ('binary', 'add', ('str', 'explicit '), ('field', l, 'n')))
+    if k < 0.93:
+        # a failing object assertion followed by another failure: re-evaluation must repeat the first one
+        o = ('object', [('fix', 'a', False, 'd', None, N(1)),
+                        ('assert', ('binary', 'ge', ('field', ('self',), 'a'), N(2)), ('str', 'object assertion'))])
+        return ('local', [('o', None, o)], ('array', [('field', V('o'), 'a'), ('error', ('str', 'second failure'))]))
     env = {}
     return ('local', [('q', None, l)], gen.gen('any', {'q': 'obj'}, 3, False))
 
